@@ -61,6 +61,8 @@ def check_chain(decays0, naming, patterns):
                     dc = build(order, rev)
                     if pi == 0:
                         s = dc.to_string()
+                        if dc.to_string() != s:
+                            strings.add(s + " (second call differs)")
                     else:
                         with DescriptorFormat(*PATTERNS[pi]):
                             s = dc.to_string()
